@@ -224,7 +224,7 @@ class Ctx:
             futs = [ex.submit(self.validate, module, f, **kw) for f in files]
             return [f.result() for f in futs]
 
-    def tlapm(self, module, timeout=240, threads=6):
+    def tlapm(self, module, timeout=150, threads=6):
         """Re-check the machine-checked proofs of a module with the TLA+ proof system; returns the number of obligations proved, or 0 when
         the prover could not finish (loaded machine, back end out of memory): the proofs are a supplement to what TLC and Apalache check on
         the same definitions and no verdict on the code depends on them, so an unfinished re-check is recorded, not fatal."""
@@ -239,7 +239,7 @@ class Ctx:
             except Exception:
                 pass
         m, txt = None, ""
-        for stretch in (1, 4):   # a loaded machine can make a back end run out of its time slice: one retry with longer time-outs
+        for stretch in (1, 3):   # a loaded machine can make a back end run out of its time slice: one retry with longer time-outs
             cmd = ["tlapm", "--threads", str(threads), "--cleanfp"] + (["--stretch", str(stretch)] if stretch > 1 else []) + [module + ".tla"]
             self.checker_cmds.append(" ".join(cmd))
             pr = subprocess.Popen(cmd, cwd=d, env=e, stdout=subprocess.PIPE, stderr=subprocess.STDOUT, text=True, start_new_session=True,
